@@ -132,6 +132,7 @@ def gen_decl(rnd, k, opts=None):
             provs[i] = dict(kind="fn", fn="New%sT%d" % (P, i), requires=req, provides=prv, fallible=fall[i], node=i,
                             variadic=bool(req and req[-1].startswith("[]") and rnd.random() < 0.6),     # func(..., xs ...Elem), fed by a []Elem
                             errtype=("%sErr" % P if rnd.random() < 0.25 else "error"),
+                            errpos=rnd.choice([None, None, None, 0, 1]),      # where the error stands among the results (None: last)
                             nest=rnd.choice(["async_outer", "bind_outer"]), lit=(rnd.random() < 0.15),
                             bind=(["%sIF%d" % (P, i)] if i in binds else []) + (["%sIF%db" % (P, i)] if i in binds2 else []), **{"async": asyncs[i]})
     order = list(range(n))
@@ -901,7 +902,14 @@ def render_provider(d, i, p):
         return "var %s = &%s{S: \"V:%s\"}\n" % (p["var"], t.lstrip("*"), p["var"])
     params = param_list(p)
     errty = p.get("errtype", "error")
-    rets = [g[0] for g in p["provides"]] + ([errty] if p["fallible"] else [])
+    def with_err(items, e):
+        """the result list with the error at the provider's error position"""
+        if not p["fallible"]:
+            return list(items)
+        k = p.get("errpos")
+        k = len(items) if k is None else min(k, len(items))
+        return list(items[:k]) + [e] + list(items[k:])
+    rets = with_err([g[0] for g in p["provides"]], errty)
     args = ", ".join(term_expr(t, "p%d" % q) for q, t in enumerate(p["requires"]))
     body = ["\th := verifrt.Enter(%s, []string{%s})\n" % (json.dumps(p["fn"]), args)]
     zero = []
@@ -910,7 +918,7 @@ def render_provider(d, i, p):
     if p["fallible"]:
         ctxs = [q for q, t in enumerate(p["requires"]) if t == CTX]
         call = "h.ExitCtx(p%d, true)" % ctxs[0] if ctxs else "h.Exit(true)"
-        body.append("\tif err := %s; err != nil { return %s }\n" % (call, ", ".join(zero + ["err"])))
+        body.append("\tif err := %s; err != nil { return %s }\n" % (call, ", ".join(with_err(zero, "err"))))
     else:
         body.append("\t_ = h.Exit(false)\n")
     vals = []
@@ -928,7 +936,7 @@ def render_provider(d, i, p):
             vals.append("&%s{s: h.Term(%d)}" % (base, gi))
         else:
             vals.append(("&" if t.startswith("*") else "") + "%s{S: h.Term(%d)}" % (base, gi))
-    body.append("\treturn %s\n" % ", ".join(vals + (["nil"] if p["fallible"] else [])))
+    body.append("\treturn %s\n" % ", ".join(with_err(vals, "nil")))
     return "func %s(%s) (%s) {\n%s}\n" % (p["fn"], params, ", ".join(rets), "".join(body))
 
 
@@ -949,7 +957,11 @@ def provider_expr(d, p):
     if p.get("lit"):
         # a function literal as provider (it forwards to the instrumented function)
         params = param_list(p)
-        rets = [g[0] for g in p["provides"]] + ([p.get("errtype", "error")] if p["fallible"] else [])
+        rets = [g[0] for g in p["provides"]]
+        if p["fallible"]:
+            k = p.get("errpos")
+            k = len(rets) if k is None else min(k, len(rets))
+            rets = rets[:k] + [p.get("errtype", "error")] + rets[k:]
         nreq = len(p["requires"])
         e = "kessoku.Provide(func(%s) (%s) { return %s(%s) })" % (params, ", ".join(rets), p["fn"],
                                                                   ", ".join("p%d%s" % (q, "..." if (is_variadic(p) and q == nreq - 1) else "") for q in range(nreq)))
